@@ -492,6 +492,17 @@ var Corpus = []Scenario{
 		x.AwaitCanaryPods(8)
 		cmd("canary-validate")
 		x.D.Converge(40)
+		// a second canary after a validated one: the old canary-valid annotation is still there, the command must act again
+		x.Template("C")
+		x.AwaitCanaryPods(8)
+		cmd("canary-validate")
+		cmd("canary-validate")
+		x.D.Converge(40)
+		x.Template("A")
+		x.AwaitCanaryPods(8)
+		cmd("canary-pause")
+		cmd("canary-validate")
+		x.D.Converge(40)
 	}},
 	{"migration-old-daemonset", []string{"C03", "C12", "C02", "C01"}, func(x Scn) {
 		sc := BaseStrategy()
